@@ -123,6 +123,28 @@ fn gen_grid(rng: &mut Rng, min_nodes: usize, max_nodes: usize, coarse: bool) -> 
         x0 += (2.0f64).powi(rng.range(6, 13) as i32) * if rng.chance(0.5) { -1.0 } else { 1.0 };
     }
     let mut x = vec![x0];
+    if n >= 5 && rng.chance(0.12) {
+        // a non-uniform grid that looks uniform from its ends: first and last width equal the mean
+        // width, interior widths come in pairs w/2, 3w/2 (any "is it uniform?" shortcut must say no)
+        let e = if coarse { rng.range(0, 3) } else { rng.range(0, 7) };
+        let w = 2.0 * rng.range(1, 2) as f64 * (2.0f64).powi(-(e as i32));
+        let mut widths = vec![w];
+        let interior = n - 3;
+        for k in 0..interior / 2 {
+            let (a, b) = if (k + rng.usize_below(2)) % 2 == 0 { (0.5 * w, 1.5 * w) } else { (1.5 * w, 0.5 * w) };
+            widths.push(a);
+            widths.push(b);
+        }
+        if interior % 2 == 1 {
+            widths.insert(1 + rng.usize_below(widths.len()), w);
+        }
+        widths.push(w);
+        for d in widths {
+            let last = *x.last().unwrap();
+            x.push(last + d);
+        }
+        return x;
+    }
     for _ in 1..n {
         let e = if coarse { rng.range(0, 4) } else { rng.range(0, 9) };
         let m = rng.range(1, 4) as f64;
@@ -1025,8 +1047,8 @@ impl Prop for C19 {
     }
     fn runs(&self, tier: Tier) -> u64 {
         match tier {
-            Tier::Quick => 60_000,
-            Tier::Thorough => 3_000_000,
+            Tier::Quick => 200_000,
+            Tier::Thorough => 8_000_000,
         }
     }
 
